@@ -663,6 +663,38 @@ fn multi_element(rec: &mut Rec, ctx: &Ctx, idx: u64, rng: &mut ChaCha20Rng) {
       }
     }
   }
+  // t-1 genuine distinct shares padded with ONE share of another secret of a different element
+  // count at a fresh point (any position): fewer than t shares of either secret -> recovery must
+  // fail outright at the Shamir level too, it must not count the foreign share and drop it
+  {
+    let k2 = if k > 1 && rng.gen_bool(0.5) { k - 1 } else { k + rng.gen_range(1..=2usize) };
+    let mut secret2 = vec![0u8; 24 * k2];
+    for j in 0..k2 {
+      rng.fill(&mut secret2[24 * j..24 * j + 16]);
+    }
+    let mut r2 = RecRng::new(case_rng(ctx, "multi-element-foreign-stream", idx));
+    if let Ok(ev2) = star_sharks::Sharks(t).dealer_rng(&secret2, &mut r2) {
+      let own_x: Vec<BigUint> = shares.iter().map(|s| of(&s.x)).collect();
+      let foreign: Vec<star_sharks::Share> = ev2.take(3).filter(|s| !own_x.contains(&of(&s.x))).take(1).collect();
+      if foreign.len() == 1 && foreign[0].y.len() == k2 {
+        let tm1 = t as usize - 1;
+        for pos in 0..=tm1 {
+          let mut coll: Vec<star_sharks::Share> = shares[..tm1].to_vec();
+          coll.insert(pos, foreign[0].clone());
+          rec.ev("sub_threshold_padded_with_other_length_share");
+          let got = quiet(rec, || star_sharks::Sharks(t).recover(&coll).map_err(|e| e.to_string()));
+          if let Some(Ok(bytes)) = got {
+            rec.violation(
+              "shamir-recovers-below-threshold:padded-with-other-length-share",
+              format!("Sharks({}).recover returned Ok({} bytes) from {} genuine shares and one share of another secret with {} instead of {} elements at position {}", t, bytes.len(), tm1, k2, k, pos),
+              json!({"t": t, "elements": k, "foreign_elements": k2, "position": pos, "secret": hex(&secret)}),
+            );
+            return;
+          }
+        }
+      }
+    }
+  }
   // the attack itself, on ONE share (t >= 2): y_i - y_j against s_i - s_j
   let s0 = &shares[0];
   for i in 0..k {
